@@ -328,7 +328,15 @@ IMPORT_HEADS = [
     ("already-imported", "from inline_snapshot import snapshot, outsource\nfrom inline_snapshot import external\nfrom inline_snapshot import HasRepr\n"),
     ("try-import", "try:\n    import json\nexcept ImportError:\n    json = None\nfrom inline_snapshot import snapshot, outsource\n"),
 ]
-WEIRD = "\n\nclass W:\n    def __repr__(self):\n        return '<W>'\n\n    def __eq__(self, other):\n        return type(other) is W or NotImplemented\n\n"
+LOCALES = [
+    ("utf8", {}),
+    # PYTHONIOENCODING: the terminal must be able to show the report (rich refuses to print non-ASCII diffs to an
+    # ASCII stdout and says so); the locale encoding used by open() stays ASCII
+    ("ascii-locale", {"LC_ALL": "C", "LANG": "C", "PYTHONUTF8": "0", "PYTHONCOERCECLOCALE": "0", "PYTHONIOENCODING": "utf-8"}),
+    ("utf8", {}),
+    ("posix-locale-utf8-mode-off", {"LC_ALL": "POSIX", "PYTHONUTF8": "0", "PYTHONCOERCECLOCALE": "0", "PYTHONIOENCODING": "utf-8"}),
+]
+WEIRD = "\n\n# non-ASCII text outside the snapshots: \u00e9\u00fc \u2192 \u65e5\u672c\nclass W:\n    def __repr__(self):\n        return '<W>'\n\n    def __eq__(self, other):\n        return type(other) is W or NotImplemented\n\n"
 
 
 class _DropAddedImports(ast.NodeTransformer):
@@ -355,18 +363,28 @@ def real_session_import_case(rng, out, C, idx=None):
     if "plain" in kinds:
         tests += "def test_p():\n    assert [1, 2] == snapshot([1])\n\n\n"
     src = head + WEIRD + "\n" + tests
+    # process environment: the file is UTF-8 whatever the locale of the process that rewrites it
+    lname, lenv = rng.choice(LOCALES) if idx is None else LOCALES[idx % len(LOCALES)]
     proj = session.Project({"test_a.py": src}, with_vp=False)
     try:
-        r = session.run_session(proj, ["--inline-snapshot=create,fix"])
-        r2 = session.run_session(proj, ["--inline-snapshot=disable"])
+        r = session.run_session(proj, ["--inline-snapshot=create,fix"], env=lenv)
+        r2 = session.run_session(proj, ["--inline-snapshot=disable"], env=lenv)
     finally:
         proj.close()
     C["real_sessions"] = C.get("real_sessions", 0) + 2
+    C["real_sessions_locale_" + lname] = C.get("real_sessions_locale_" + lname, 0) + 1
     out["evaluations"] += 1
-    out["signatures"].add(f"real-session-import/{hname}/{'+'.join(sorted(kinds))}")
-    wit = {"files": {"test_a.py": src}, "args": ["--inline-snapshot=create,fix"]}
-    base = {"head": hname, "kinds": sorted(kinds)}
-    new = r.after.get("test_a.py", b"").decode()
+    out["signatures"].add(f"real-session-import/{hname}/{'+'.join(sorted(kinds))}/{lname}")
+    wit = {"files": {"test_a.py": src}, "args": ["--inline-snapshot=create,fix"], "env": lenv}
+    base = {"head": hname, "kinds": sorted(kinds), "locale": lname}
+    try:
+        new = r.after.get("test_a.py", b"").decode()
+    except UnicodeDecodeError as e:
+        out["violations"].append({"kind": "rewritten-file-is-not-utf-8", "detail": {**base, "error": str(e), "bytes_head": repr(r.after.get("test_a.py", b"")[:300])}, "witness": wit, "finding": None})
+        return
+    if not new.strip() and src.strip():
+        out["violations"].append({"kind": "rewritten-file-is-empty", "detail": {**base, "stdout_tail": r.stdout[-600:]}, "witness": wit, "finding": None})
+        return
     if any(a["kind"] == "sessionfinish_exception" for a in r.audit):
         out["violations"].append({"kind": "session-end-raised", "detail": {**base, "events": [a for a in r.audit if a["kind"] == "sessionfinish_exception"]}, "witness": wit, "finding": None})
         return
